@@ -6,6 +6,7 @@ import (
 	"sort"
 	"strconv"
 	"strings"
+	"time"
 
 	"github.com/anishathalye/porcupine"
 	"verif/sim/resp"
@@ -16,6 +17,9 @@ type StrOp struct {
 	Kind string   // GET SET SETNX GETSET INCR DECR DECRBY INCRBY APPEND MSETNX DEL
 	Keys []string // one key, or several for MSETNX/DEL
 	Vals []string // value(s) / increment / suffix
+	// TTL > 0: a SET with EX (whole seconds) or PX. Kind "EXPIRE?" is not a command but the moment from which the
+	// key set by the SET whose value is Vals[0] may have expired (an optional step: it stays pending for ever)
+	TTL time.Duration
 }
 
 func (o StrOp) String() string {
@@ -35,6 +39,13 @@ func (o StrOp) Args() []string {
 	default:
 		a = append(a, o.Keys[0])
 		a = append(a, o.Vals...)
+	}
+	if o.TTL > 0 {
+		if o.TTL%time.Second == 0 {
+			a = append(a, "EX", strconv.Itoa(int(o.TTL/time.Second)))
+		} else {
+			a = append(a, "PX", strconv.Itoa(int(o.TTL/time.Millisecond)))
+		}
 	}
 	return a
 }
@@ -80,6 +91,44 @@ func ModelStep(s strState, op StrOp) (strState, resp.Value, bool) {
 		k = op.Keys[0]
 	}
 	cur, has := s[k]
+	// the time to live of a key is remembered as the value of the SET that attached it; commands that replace the
+	// value as a whole (SET, GETSET, a successful SETNX/MSETNX) or remove the key detach it, the others keep it
+	ttlKey := func(k string) string { return "\x00ttl:" + k }
+	switch op.Kind {
+	case "EXPIRE?":
+		if n[ttlKey(k)] == op.Vals[0] {
+			delete(n, k)
+			delete(n, ttlKey(k))
+		}
+		return n, resp.Value{}, false
+	}
+	switch op.Kind {
+	case "SET", "GETSET":
+		delete(n, ttlKey(k))
+		if op.TTL > 0 {
+			n[ttlKey(k)] = op.Vals[0]
+		}
+	case "SETNX":
+		if !has {
+			delete(n, ttlKey(k))
+		}
+	case "MSETNX":
+		free := true
+		for _, kk := range op.Keys {
+			if _, ok := s[kk]; ok {
+				free = false
+			}
+		}
+		if free {
+			for _, kk := range op.Keys {
+				delete(n, ttlKey(kk))
+			}
+		}
+	case "DEL":
+		for _, kk := range op.Keys {
+			delete(n, ttlKey(kk))
+		}
+	}
 	switch op.Kind {
 	case "GET":
 		if !has {
